@@ -46,6 +46,17 @@ func checkC10(c *Ctx) {
 		}
 	})
 	c.c10Views()
+	// a restored entry keeps its own E: gob does not transmit zero fields, so a decode target re-used across records hands the
+	// previous record's expiry to a never-expiring one (C13 R13.1)
+	c.borrowKinds("C13", func() { checkC13(c) }, "R10.3", "Restore:own-storage-per-record", []string{"R13.1"}, "decode-target-reused", "stored-not-target")
+	// the TTL of the caller's context is what the final store uses: Failover's stale refresh never writes into that cell (C06 R06.2)
+	c.borrowKinds("C06", func() {
+		for _, sib := range siblings {
+			if fo := c.failover(sib); fo.Err == nil {
+				c.c06Sibling(fo)
+			}
+		}
+	}, "R10.1", "Failover.Get:caller-ttl-cell", []string{"R06.2"}, "refresh-ctx")
 }
 
 func (c *Ctx) c10Jitter() {
@@ -327,6 +338,64 @@ func (c *Ctx) configWriters(rule string, fields ...string) {
 	r.Count("config_field_assignments", n)
 	if !bad {
 		r.OK(rule, "package:config-writers", fmt.Sprintf("%d assignments to %v, all in the constructor's defaulting code", n, fields))
+	}
+}
+
+// configOverwrites: the constructor may complete the configuration it was given, never change it: on every path of Trait.init a
+// Config field is assigned only where its previous value was found zero (nil for functions). A "sanity" rewrite of a non-zero
+// value, or a field reset because of what other fields hold, replaces what the user configured.
+func (c *Ctx) configOverwrites(rule string) {
+	r := c.R
+	name := "Trait.init"
+	if fd, _ := c.funcDecl(name); fd == nil {
+		name = "NewTrait"
+	}
+	e, paths, _, err := c.runFunc(name, pw.Policy{Inline: inlineUnexported, MaxDepth: 2})
+	if err != nil {
+		r.Unknown(rule, name+":config-overwrites", err.Error())
+		return
+	}
+	zero := e.IntConst(0)
+	n, bad := 0, map[string]bool{}
+	for _, p := range paths {
+		orig := map[string]*pw.Val{}
+		for _, ev := range p.Events {
+			if ev.Field == nil || fieldOwnerName(ev.Field) != "Config" {
+				continue
+			}
+			f := fname(ev.Field)
+			switch ev.Kind {
+			case pw.EvFieldRead:
+				if orig[f] == nil {
+					orig[f] = ev.Value
+				}
+			case pw.EvFieldWrite:
+				n++
+				o := orig[f]
+				if o != nil && ev.Value == o {
+					continue // writing back what was read
+				}
+				ok := false
+				if o != nil {
+					if isNil, known := p.NilFact(o); known && isNil {
+						ok = true
+					}
+					if p.Rel(o, zero) == pw.REq {
+						ok = true
+					}
+					if o.Kind == pw.KZero {
+						ok = true
+					}
+				}
+				if !ok && !bad[f] {
+					bad[f] = true
+					r.Bad(rule, name, "config-overwritten:"+f, c.Pos(ev.Pos), "Config."+f+" is assigned on a path that does not establish that it was zero: a value the user configured is replaced", shortTrace(p))
+				}
+			}
+		}
+	}
+	if len(bad) == 0 {
+		r.OK(rule, name+":config-overwrites", fmt.Sprintf("%d assignments to Config fields, each only where the field was found zero", n))
 	}
 }
 
